@@ -628,4 +628,15 @@ theorem placeFrom_shift (k : Nat) : ∀ (ps : List (Label × Pickled)) (n : Nat)
     have : n + 1 + k = n + k + 1 := by omega
     rw [this]
 
+open Mxl.Generated.C09 in
+theorem protoSteps_eq (steps : Nat) : ∀ (proto : Protocol) (t0 : Rat),
+    protoSteps linspace steps t0 (proto.map (·.1)) = protoIndex steps t0 false proto := by
+  intro proto
+  induction proto with
+  | nil => intro t0; rfl
+  | cons s rest ih =>
+    intro t0
+    simp only [List.map_cons, protoSteps, protoIndex, protoPoints, protoDrop, ih s.1]
+    rfl
+
 end Mxl.C09
